@@ -5,3 +5,4 @@ cd "$(dirname "$0")/harness"
 export CARGO_NET_OFFLINE=true
 cargo build --offline --profile chk
 cargo build --offline --profile rel
+cd ../harness-nofeat && cargo build --offline --release
